@@ -327,7 +327,7 @@ pub fn gen_op(p: Profile, kinds: &[K], r: &mut Rng) -> Op {
                 }
                 2 => Op::new("into_raw").with("s", s),
                 3 => Op::new("leak").with("s", s),
-                4 => Op::new(if capk { "slice_to_vec" } else { "slice_to_arr" }).with("s", s).with("n", n.min(4)),
+                4 => Op::new("slice_to_vec").with("s", s),
                 5 => access(r, n),
                 6 => Op::new("cmp").with("a", s).with("b", other_same(r, &|k| matches!(k, K::Slice(..)))),
                 7 => Op::new("hash").with("s", s),
